@@ -130,6 +130,40 @@ big%(u)s(n: SI): Integer == { l: List Integer := nil; for i: SI in 1..n repeat l
     return d, [], "big%s(%d)" % (u, nn)
 
 
+def b_bigops(u, rng, n):
+    """Big-integer primitives beyond + * ^ gcd: divide / quo / rem with both signs, shifts in both
+    directions, rationals (normalised through gcd), software floats; the value returned is itself
+    several hundred digits long, so printing it formats a large number."""
+    e1, e2 = rng.range(120, 260), rng.range(9, 23)
+    d = '''
+bop%(u)s(n: SI): Integer == {
+	import from Ratio Integer, Float;
+	a: Integer := 3^%(e1)d + 7;
+	s: Integer := 0;
+	l: List Integer := nil;
+	for i: SI in 1..n repeat {
+		b: Integer := (i::Integer)^%(e2)d + 12345678901234567;
+		(q, r) := divide(a, b);
+		s := s + (q rem 1000003) + r rem 1000003;
+		s := s + shift(b, 5 + i rem 70) rem 1000003 + shift(a, -(i rem 90)) rem 1000003;
+		s := s + (-a) quo b;
+		s := s + gcd(a + i::Integer, b);
+		l := cons(b * b - a, l);
+		a := a + b;
+	}
+	for x in l repeat s := (s + x rem 1000003) rem 1000000007;
+	rr: Ratio Integer := 0;
+	for i: SI in 1..(n quo 4 + 1) repeat rr := rr + (1@Integer) / ((i::Integer)^3 + 1);
+	s := s + numer rr rem 1000003 + denom rr rem 1000003;
+	f: Float := 1.5;
+	for i: SI in 1..(n quo 4 + 1) repeat f := f * 1.25 + 0.125;
+	s := s + (integer(f) rem 1000003);
+	(s rem 1000000007) + a * a
+}
+''' % dict(u=u, e1=e1, e2=e2)
+    return d, [], "bop%s(%d)" % (u, min(n, 120))
+
+
 def b_string(u, rng, n):
     piece = rng.choice(["ab", "xyz", "q", "hello "])
     d = '''
@@ -636,7 +670,7 @@ bdr%(u)s(rounds: SI): SI == {
 
 
 BLOCKS = [("list", b_list, 4), ("record", b_record, 4), ("node", b_node, 2), ("closure", b_closure, 2),
-          ("generator", b_generator, 2), ("bigint", b_bigint, 3), ("string", b_string, 2), ("table", b_table, 2),
+          ("generator", b_generator, 2), ("bigint", b_bigint, 3), ("bigops", b_bigops, 2), ("string", b_string, 2), ("table", b_table, 2),
           ("array", b_array, 3), ("domain", b_domain, 1),
           ("docs", b_docs, 2), ("exn", b_exn, 2), ("union", b_union, 2), ("float", b_float, 1), ("tokens", b_tokens, 1),
           ("deeprec", b_deeprec, 2), ("ptrarray", b_ptrarray, 2), ("dyndom", b_dyndom, 2),
